@@ -19,6 +19,8 @@ pub enum K {
     Pipe(u16, u8),
     /// name resolves to the same code in context ctx
     Name(String, u8),
+    /// a deflocalkeys definition must not outlive its configuration: load A (defines names), then B
+    LocalKeys(u8),
     /// mapped-key set of a generated configuration
     Mapped { defsrc: Vec<u16>, layermap: Vec<u16>, process_unmapped: u8, except: Vec<u16> },
 }
@@ -29,6 +31,7 @@ impl Case for K {
             K::Code(v) => json!({"kind": "code", "v": v}),
             K::Pipe(v, m) => json!({"kind": "pipe", "v": v, "mode": m}),
             K::Name(n, c) => json!({"kind": "name", "name": n, "ctx": c}),
+            K::LocalKeys(i) => json!({"kind": "localkeys", "variant": i}),
             K::Mapped { defsrc, layermap, process_unmapped, except } => {
                 json!({"kind": "mapped", "defsrc": defsrc, "layermap": layermap, "process_unmapped": process_unmapped, "except": except})
             }
@@ -40,6 +43,7 @@ impl Case for K {
             "code" => K::Code(v["v"].as_u64()? as u16),
             "pipe" => K::Pipe(v["v"].as_u64()? as u16, v["mode"].as_u64()? as u8),
             "name" => K::Name(v["name"].as_str()?.to_string(), v["ctx"].as_u64()? as u8),
+            "localkeys" => K::LocalKeys(v["variant"].as_u64()? as u8),
             "mapped" => K::Mapped {
                 defsrc: arr(&v["defsrc"])?,
                 layermap: arr(&v["layermap"])?,
@@ -192,9 +196,14 @@ fn check_press_release(sim: &mut Sim, v: u16, what: &str) -> Result<(), Fail> {
     sim.press(v);
     sim.tick_n(3);
     let down: Vec<_> = sim.outs.clone();
+    // an OS auto-repeat while the key is held must not leak anything else either
+    sim.repeat(v);
+    sim.tick_n(2);
+    let rep: Vec<_> = sim.outs[down.len()..].to_vec();
     sim.release(v);
     sim.tick_n(3);
-    let all = sim.outs.clone();
+    let all: Vec<_> = sim.outs.iter().filter(|o| !o.direct).cloned().collect();
+    let all_with_repeats = sim.outs.clone();
     let exp = expected_out(v).unwrap_or("key");
     let kc_no = OsCode::from_u16(v).map(|o| KeyCode::from(o) == KeyCode::No).unwrap_or(true);
     let bad = |why: String| Fail {
@@ -203,8 +212,11 @@ fn check_press_release(sim: &mut Sim, v: u16, what: &str) -> Result<(), Fail> {
     };
     match exp {
         "nothing" => {
-            if !all.is_empty() {
-                return Err(bad("reserved no-op code reached the OS output".into()));
+            if !all_with_repeats.is_empty() {
+                return Err(Fail {
+                    sig: format!("identity:{what}"),
+                    detail: format!("reserved no-op code {v} reached the OS output (press / repeat / release): {}", crate::sim::fmt_outs(&all_with_repeats)),
+                });
             }
         }
         "button" => {
@@ -223,6 +235,10 @@ fn check_press_release(sim: &mut Sim, v: u16, what: &str) -> Result<(), Fail> {
             }
             let d: Vec<u16> = down.iter().filter_map(|o| if let OutEv::Down(k) = o.ev { Some(k) } else { None }).collect();
             let u: Vec<u16> = all.iter().filter_map(|o| if let OutEv::Up(k) = o.ev { Some(k) } else { None }).collect();
+            // the repeat may only re-send the same key
+            if rep.iter().any(|o| !matches!(o.ev, OutEv::Down(k) if k == v)) {
+                return Err(bad(format!("the OS repeat produced something else: {}", crate::sim::fmt_outs(&rep))));
+            }
             if d != vec![v] || u != vec![v] || all.len() != 2 {
                 return Err(bad(format!("expected exactly press and release of the same code, got presses {d:?} releases {u:?}")));
             }
@@ -432,6 +448,78 @@ fn judge_case(c: &K) -> Verdict {
                 }
             }
         }
+        K::LocalKeys(variant) => {
+            v.classes.push("localkeys");
+            // names that deflocalkeys may redefine, and a brand-new name
+            let redefinable = [";", "[", "+", "'", "="];
+            let name = redefinable[*variant as usize % redefinable.len()];
+            let files = || -> rustc_hash::FxHashMap<String, String> { Default::default() };
+            let plain = format!("(defcfg log-layer-changes no)\n(defsrc {name} a)\n(deflayer l {name} a)\n");
+            let before = match kanata_parser::cfg::new_from_str(&plain, files()) {
+                Ok(c) => c.mapped_keys.iter().map(|o| o.as_u16()).collect::<BTreeSet<u16>>(),
+                Err(e) => return Verdict::failed("harness:localkeys-config-rejected", format!("{plain}\n{e:?}")),
+            };
+            let with_local = format!("(deflocalkeys-linux {name} 300 lk 301)\n(defcfg log-layer-changes no)\n(defsrc {name} lk)\n(deflayer l {name} lk)\n");
+            match kanata_parser::cfg::new_from_str(&with_local, files()) {
+                Ok(c) => {
+                    let mk: BTreeSet<u16> = c.mapped_keys.iter().map(|o| o.as_u16()).collect();
+                    if mk != [300u16, 301].into_iter().collect() {
+                        return Verdict::failed("identity:deflocalkeys", format!("{with_local}mapped_keys = {mk:?}, expected the redefined codes 300 and 301"));
+                    }
+                }
+                Err(e) => return Verdict::failed("harness:localkeys-config-rejected", format!("{with_local}\n{e:?}")),
+            }
+            // a later configuration without deflocalkeys sees the standard meaning again
+            match kanata_parser::cfg::new_from_str(&plain, files()) {
+                Ok(c) => {
+                    let after: BTreeSet<u16> = c.mapped_keys.iter().map(|o| o.as_u16()).collect();
+                    if after != before {
+                        return Verdict::failed("identity:deflocalkeys-leaks-into-next-config", format!("name {name:?}: mapped keys {before:?} before, {after:?} after another configuration had redefined it with deflocalkeys"));
+                    }
+                }
+                Err(e) => return Verdict::failed("identity:deflocalkeys-leaks-into-next-config", format!("{plain}\nrejected after another configuration used deflocalkeys: {e:?}")),
+            }
+            let uses_lk = "(defcfg log-layer-changes no)\n(defsrc lk)\n(deflayer l lk)\n";
+            if kanata_parser::cfg::new_from_str(uses_lk, files()).is_ok() {
+                return Verdict::failed("identity:deflocalkeys-leaks-into-next-config", "the name `lk`, defined by an earlier configuration's deflocalkeys, is still accepted by a configuration that does not define it".to_string());
+            }
+        }
+        K::LocalKeys(variant) => {
+            v.classes.push("localkeys");
+            // names that deflocalkeys may redefine, and a brand-new name
+            let redefinable = [";", "[", "+", "'", "="];
+            let name = redefinable[*variant as usize % redefinable.len()];
+            let files = || -> rustc_hash::FxHashMap<String, String> { Default::default() };
+            let plain = format!("(defcfg log-layer-changes no)\n(defsrc {name} a)\n(deflayer l {name} a)\n");
+            let before = match kanata_parser::cfg::new_from_str(&plain, files()) {
+                Ok(c) => c.mapped_keys.iter().map(|o| o.as_u16()).collect::<BTreeSet<u16>>(),
+                Err(e) => return Verdict::failed("harness:localkeys-config-rejected", format!("{plain}\n{e:?}")),
+            };
+            let with_local = format!("(deflocalkeys-linux {name} 300 lk 301)\n(defcfg log-layer-changes no)\n(defsrc {name} lk)\n(deflayer l {name} lk)\n");
+            match kanata_parser::cfg::new_from_str(&with_local, files()) {
+                Ok(c) => {
+                    let mk: BTreeSet<u16> = c.mapped_keys.iter().map(|o| o.as_u16()).collect();
+                    if mk != [300u16, 301].into_iter().collect() {
+                        return Verdict::failed("identity:deflocalkeys", format!("{with_local}mapped_keys = {mk:?}, expected the redefined codes 300 and 301"));
+                    }
+                }
+                Err(e) => return Verdict::failed("harness:localkeys-config-rejected", format!("{with_local}\n{e:?}")),
+            }
+            // a later configuration without deflocalkeys sees the standard meaning again
+            match kanata_parser::cfg::new_from_str(&plain, files()) {
+                Ok(c) => {
+                    let after: BTreeSet<u16> = c.mapped_keys.iter().map(|o| o.as_u16()).collect();
+                    if after != before {
+                        return Verdict::failed("identity:deflocalkeys-leaks-into-next-config", format!("name {name:?}: mapped keys {before:?} before, {after:?} after another configuration had redefined it with deflocalkeys"));
+                    }
+                }
+                Err(e) => return Verdict::failed("identity:deflocalkeys-leaks-into-next-config", format!("{plain}\nrejected after another configuration used deflocalkeys: {e:?}")),
+            }
+            let uses_lk = "(defcfg log-layer-changes no)\n(defsrc lk)\n(deflayer l lk)\n";
+            if kanata_parser::cfg::new_from_str(uses_lk, files()).is_ok() {
+                return Verdict::failed("identity:deflocalkeys-leaks-into-next-config", "the name `lk`, defined by an earlier configuration's deflocalkeys, is still accepted by a configuration that does not define it".to_string());
+            }
+        }
         K::Mapped { defsrc, layermap, process_unmapped, except } => {
             v.classes.push("mapped-keys");
             let nm = |c: &u16| t.name_of.get(c).cloned();
@@ -506,7 +594,7 @@ impl TypedProp for C11 {
     }
     fn plan(&self, tier: Tier) -> Plan {
         let t = tables();
-        let n = 65536 + 768 * 3 + t.names.len() as u64 * N_CTX
+        let n = 65536 + 768 * 3 + t.names.len() as u64 * N_CTX + 5
             + match tier {
                 Tier::Quick => 20_000,
                 Tier::Thorough => 400_000,
@@ -515,7 +603,7 @@ impl TypedProp for C11 {
             n_cases: n,
             exhaustive: false,
             distinct_by_construction: false,
-            required_classes: vec!["code", "pipeline", "name", "mapped-keys"],
+            required_classes: vec!["code", "pipeline", "name", "localkeys", "mapped-keys"],
             hang_secs: 60,
         }
     }
@@ -532,6 +620,10 @@ impl TypedProp for C11 {
         if idx < t.names.len() as u64 * N_CTX {
             let (n, _) = &t.names[(idx / N_CTX) as usize];
             return Gen::Fixed(K::Name(n.clone(), (idx % N_CTX) as u8));
+        }
+        let idx = idx - t.names.len() as u64 * N_CTX;
+        if idx < 5 {
+            return Gen::Fixed(K::LocalKeys(idx as u8));
         }
         Gen::Strat(0)
     }
